@@ -63,6 +63,7 @@ pub fn run(cx: &mut Ctx) {
     crate::rules::float_rules::float_sign_rule(cx, "C18.S1", "format/src/format.rs", "FormatSpec", "format_float");
     unconsumed_text(cx, &src);
     grouped_padding(cx, &src);
+    crate::rules::float_rules::float_spec_corner_cases(cx, "C18.G2");
 }
 
 /// A3: grouped digits are extended to the width only under zero padding.
